@@ -315,13 +315,53 @@ func c02Entries(r *Run) {
 		for _, p := range paths {
 			rets := p.Rets()
 			usesDecoder := len(p.Calls(isFn(di))) == 1
+			// what the path decided about len(data): an interval [lo, hi] (hi < 0: unbounded)
+			lo, hi := int64(0), int64(-1)
+			for _, f := range p.Conds {
+				b, ok := f.Cond.(*ssa.BinOp)
+				if !ok {
+					continue
+				}
+				lc, ok := stripConv(b.X).(*ssa.Call)
+				k, isK := constInt(b.Y)
+				if !ok || !isK || calleeOf(lc).Builtin != "len" || lc.Call.Args[0] != ssa.Value(fn.Params[0]) {
+					continue
+				}
+				op := b.Op
+				if !f.Val {
+					op = map[token.Token]token.Token{token.EQL: token.NEQ, token.NEQ: token.EQL, token.LSS: token.GEQ, token.GEQ: token.LSS, token.GTR: token.LEQ, token.LEQ: token.GTR}[op]
+				}
+				setHi := func(v int64) {
+					if hi < 0 || v < hi {
+						hi = v
+					}
+				}
+				switch op {
+				case token.EQL:
+					lo = max(lo, k)
+					setHi(k)
+				case token.NEQ:
+					if k == lo {
+						lo = k + 1
+					}
+				case token.LSS:
+					setHi(k - 1)
+				case token.LEQ:
+					setHi(k)
+				case token.GTR:
+					lo = max(lo, k+1)
+				case token.GEQ:
+					lo = max(lo, k)
+				}
+			}
+			cond := p.String()
 			if usesDecoder {
 				okr := len(rets) == 2 && render(rets[0]) == render(call)+"#0" && render(rets[1]) == render(call)+"#2"
 				r.Check(okr, rule, name+": returns the decoder's item and error", p.Exit.Pos(), "(item, err) of decodeItem", "must return decodeItem's item and error unchanged, got "+render(rets[0])+", "+render(rets[1]))
+				r.Check(lo == 1 && hi < 0, rule, name+": every non-empty input goes to the decoder", p.Exit.Pos(), "len(data) ≥ 1", "the decoder must run for exactly the non-empty inputs; this path runs it under ["+cond+"]")
 			} else {
 				okr := len(rets) == 2 && isCallTo(stripConv(rets[0]), isFn(emptyCtor)) && render(rets[1]) == "nil"
-				cond := p.String()
-				r.Check(okr && strings.Contains(cond, "len($"+fn.Params[0].Name()+")"), rule, name+": empty input → empty item", p.Exit.Pos(), "len(data)==0 → NewEmptyItem(), nil", "the only path that skips the decoder must be len(data)==0 returning the empty item; path ["+cond+"]")
+				r.Check(okr && lo == 0 && hi == 0, rule, name+": empty input → empty item", p.Exit.Pos(), "len(data)==0 → NewEmptyItem(), nil", "the only path that skips the decoder must be len(data)==0 returning the empty item; path ["+cond+"]")
 			}
 		}
 	}
